@@ -410,6 +410,9 @@ def gen_cases(tier, seed):
     for i in range(2 if q else 12):
         cases.append(dict(kind="imported", family="daily:imported-2.0", tz="UTC", n=k, timeout=1500))
         k += 1
+    for i in range(1 if q else 4):
+        cases.append(dict(kind="e2e", family="daily:legacy-third-daytype", tz=["America/Chicago", "UTC", "Australia/Sydney", "Europe/London"][i], n=k, timeout=3000))
+        k += 1
     dfam = ["daily:current", "billing", "daily:legacy", "caltrack"]
     for i in range(4 if q else 40):
         cases.append(dict(kind="e2e", family=dfam[i % 4] if (q or i % 8) else "caltrack", tz=(zones_h + MIDNIGHT_ZONES)[i % (len(zones_h) + (0 if q else len(MIDNIGHT_ZONES)))], n=k, timeout=3000))
